@@ -4,7 +4,7 @@ Values: ints are python ints (concrete) or z3 bit-vectors / Bools (i1); pointers
 pluggable domain (ConcreteDom = IEEE via numpy/libm, RealDom = exact reals, FPDom = z3 IEEE terms, UDom = opaque patterns).
 Memory: copy-on-write pages over the snapshot + a cell map for symbolic values.  Every access is checked against the
 allocation table (snapshot arena allocations + the executor's own heap)."""
-import struct, copy, math, time, sys, bisect, ctypes
+import struct, copy, math, time, sys, bisect, ctypes, re
 from fractions import Fraction
 import numpy as np
 import z3
@@ -28,6 +28,9 @@ def sgn(v, b): return v - (1 << b) if v >> (b - 1) else v
 class Unsupported(Exception): pass
 class MemError(Exception): pass
 class PathEnd(Exception): pass      # a modelled noreturn (abort, assert fail, throw) ends this path
+class CxxThrow(Exception):
+    """a C++ exception in flight: object address + mangled name of its std::type_info"""
+    def __init__(s, obj, tinfo): s.obj = obj; s.tinfo = tinfo
 
 # ------------------------------------------------------------------ float domains
 def _np(bits): return np.float32 if bits == 32 else np.float64
@@ -71,7 +74,8 @@ class RealDom:
         if not s.div0_fresh: raise Unsupported('division by zero in real domain')
         s.nfresh += 1; return z3.Real('div0_%d' % s.nfresh)
     def const(s, x, bits):
-        if math.isnan(x) or math.isinf(x): raise Unsupported('non-finite constant in real domain')
+        if math.isnan(x): raise Unsupported('NaN constant in real domain')
+        if math.isinf(x): return float(x)        # +-inf: only comparisons against it are meaningful (every real is finite)
         return Fraction(float(x))
     def from_bits(s, v, bits):
         f = struct.unpack('<f' if bits == 32 else '<d', int(v).to_bytes(bits // 8, 'little'))[0]
@@ -81,9 +85,10 @@ class RealDom:
         if isinstance(x, Fraction):
             return int.from_bytes(struct.pack('<f' if bits == 32 else '<d', float(x)), 'little')
         raise Unsupported('real -> bits')
-    def is_conc(s, x): return isinstance(x, Fraction)
+    def is_conc(s, x): return isinstance(x, (Fraction, float))
     def z(s, x): return z3.RealVal(str(x)) if isinstance(x, Fraction) else x
     def bin(s, op, a, b, bits):
+        if isinstance(a, float) or isinstance(b, float): raise Unsupported('arithmetic on an infinite constant in the real domain')
         if isinstance(a, Fraction) and isinstance(b, Fraction):
             if op == 'fdiv' and b == 0: return s._div0()
             return s._rc({'fadd': lambda: a + b, 'fsub': lambda: a - b, 'fmul': lambda: a * b, 'fdiv': lambda: a / b}[op](), bits)
@@ -107,8 +112,14 @@ class RealDom:
         if pred in ('uno', 'false'): return 0
         if pred in ('ord', 'true'): return 1
         p = pred[1:]
-        if isinstance(a, Fraction) and isinstance(b, Fraction):
+        if isinstance(a, (Fraction, float)) and isinstance(b, (Fraction, float)):
             return int({'eq': a == b, 'gt': a > b, 'ge': a >= b, 'lt': a < b, 'le': a <= b, 'ne': a != b}[p])
+        if isinstance(a, float) or isinstance(b, float):      # symbolic (finite) real against +-inf
+            inf, flip = (b, False) if isinstance(b, float) else (a, True)
+            pos = inf > 0
+            r = {'eq': False, 'ne': True, 'lt': pos, 'le': pos, 'gt': not pos, 'ge': not pos}[p]
+            if flip: r = {'eq': False, 'ne': True, 'lt': not pos, 'le': not pos, 'gt': pos, 'ge': pos}[p]
+            return int(r)
         a, b = s.z(a), s.z(b)
         return {'eq': a == b, 'gt': a > b, 'ge': a >= b, 'lt': a < b, 'le': a <= b, 'ne': a != b}[p]
     def conv(s, a, frm, to): return s._rc(a, to) if isinstance(a, Fraction) else a
@@ -171,8 +182,8 @@ class FBits:
     def __init__(s, val, bits): s.val = val; s.bits = bits
 
 class Frame:
-    __slots__ = ('fn', 'blk', 'ip', 'prev', 'loc', 'ret_to', 'allocas')
-    def __init__(s, fn): s.fn = fn; s.blk = fn.order[0]; s.ip = 0; s.prev = None; s.loc = {}; s.ret_to = None; s.allocas = []
+    __slots__ = ('fn', 'blk', 'ip', 'prev', 'loc', 'ret_to', 'allocas', 'active_invoke')
+    def __init__(s, fn): s.fn = fn; s.blk = fn.order[0]; s.ip = 0; s.prev = None; s.loc = {}; s.ret_to = None; s.allocas = []; s.active_invoke = None
 
 class State:
     def __init__(s):
@@ -182,7 +193,7 @@ class State:
         n = State.__new__(State)
         n.frames = []
         for f in s.frames:
-            g = Frame.__new__(Frame); g.fn = f.fn; g.blk = f.blk; g.ip = f.ip; g.prev = f.prev; g.loc = dict(f.loc); g.ret_to = f.ret_to; g.allocas = list(f.allocas)
+            g = Frame.__new__(Frame); g.fn = f.fn; g.blk = f.blk; g.ip = f.ip; g.prev = f.prev; g.loc = dict(f.loc); g.ret_to = f.ret_to; g.allocas = list(f.allocas); g.active_invoke = f.active_invoke
             n.frames.append(g)
         n.pages = {k: bytearray(v) for k, v in s.pages.items()}
         n.sym = dict(s.sym); n.pc = list(s.pc); n.heap = s.heap; n.allocs = dict(s.allocs); n.events = list(s.events); n.nins = s.nins; n.retval = None
@@ -380,6 +391,16 @@ class Exec:
         name = self.m.aliases.get(name, name)
         if name in self.snap.symbols: return self.snap.symbols[name]
         if name in self.gaddr: return self.gaddr[name]
+        if name.startswith('_ZTI') and (name not in self.m.globals or self.m.globals[name][1] is None):
+            # std::type_info object living in a shared library (fundamental / std types): a stand-in { vptr, const char* __name }
+            a = (self.gnext + 15) & ~15; self.gnext = a + 64; self.gaddr[name] = a
+            cm = self.check_mem; self.check_mem = False
+            try:
+                for tgt in ((self.gimg, st) if st is not None and st is not self.gimg else (self.gimg,)):
+                    self.write_bytes(tgt, a, bytes(16) + name[4:].encode() + b'\0')
+                    self.store(tgt, a + 8, IntTy(64), a + 16)
+            finally: self.check_mem = cm
+            return a
         if name in self.m.funcs or name in self.m.decls or name not in self.m.globals:
             a = self.faddr.get(name)
             if a is None:
@@ -598,6 +619,60 @@ class Exec:
     def goto(self, st, fr, tgt):
         fr.prev = fr.blk; fr.blk = tgt; fr.ip = 0; self.enter(st, fr)
     def run_path(self, st, work):
+        while True:
+            try:
+                return self._run_path(st, work)
+            except CxxThrow as t:
+                self.unwind(st, t)
+    def unwind(self, st, t):
+        """two-phase unwinding collapsed into one: pop frames until one has an active invoke; continue at its landing pad"""
+        while st.frames:
+            fr = st.frames[-1]
+            if fr.active_invoke is not None:
+                lbl, blk = fr.active_invoke; fr.active_invoke = None
+                fr.prev = blk; fr.blk = lbl; fr.ip = 0; st.extra['exc'] = (t.obj, t.tinfo); return
+            for a in fr.allocas: st.allocs.pop(a, None)
+            st.frames.pop(); st.aver += 1
+        raise PathEnd('uncaught C++ exception of type %s' % t.tinfo)
+    def tinfo_name(self, addr):
+        if hasattr(addr, 'base') and str(addr.base).startswith('@'): return str(addr.base)[1:]
+        if not isinstance(addr, int) or addr == 0: return None
+        for n, a in self.gaddr.items():
+            if a == addr: return n
+        n = self.addr2f.get(addr)
+        if n: return n
+        for c in self.snap.addr2syms.get(addr, []):
+            if c.startswith('_ZTI'): return c
+        return None
+    STD_BASES = {'_ZTISt8bad_cast': ['_ZTISt9exception'], '_ZTISt9bad_alloc': ['_ZTISt9exception'], '_ZTISt11logic_error': ['_ZTISt9exception'], '_ZTISt13runtime_error': ['_ZTISt9exception'],
+                 '_ZTISt12out_of_range': ['_ZTISt11logic_error'], '_ZTISt16invalid_argument': ['_ZTISt11logic_error'], '_ZTISt12length_error': ['_ZTISt11logic_error']}
+    def tinfo_bases(self, name):
+        if name in self.STD_BASES: return self.STD_BASES[name]
+        g = self.m.globals.get(name); out = []
+        def walk(c):
+            if c is None: return
+            if c[0] == 'global' and c[1].startswith('_ZTI') and c[1] != name: out.append(c[1])
+            elif c[0] == 'agg':
+                for t_, v in c[1]: walk(v)
+            elif c[0] == 'cexpr':
+                if c[1] == 'getelementptr': [walk(v) for t_, v in c[3]]
+                elif len(c) > 3 and isinstance(c[3], tuple): walk(c[3])
+        if g and g[1]: walk(g[1])
+        return out
+    def exc_matches(self, thrown, caught):
+        if caught is None or thrown == caught: return True
+        seen = set(); stack = [thrown]
+        while stack:
+            x = stack.pop()
+            if x in seen: continue
+            seen.add(x)
+            if x == caught: return True
+            stack.extend(self.tinfo_bases(x))
+        return False
+    def typeid_for(self, name):
+        ids = self.__dict__.setdefault('_typeids', {})
+        return ids.setdefault(name, len(ids) + 1)
+    def _run_path(self, st, work):
         m = self.m
         while st.frames:
             fr = st.frames[-1]
@@ -721,6 +796,7 @@ class Exec:
                 if fr.allocas: st.aver += 1
                 st.frames.pop()
                 if st.frames:
+                    st.frames[-1].active_invoke = None
                     if fr.ret_to is not None: st.frames[-1].loc[fr.ret_to] = rv
                 else: st.retval = rv
             elif op in ('call', 'invoke'):
@@ -743,7 +819,9 @@ class Exec:
                         if ins['dst'] is not None: fr.loc[ins['dst']] = r
                         continue
                     if name is None: raise Unsupported('indirect call to 0x%x' % fp if isinstance(fp, int) else 'symbolic fn ptr')
-                if op == 'invoke': self.goto(st, fr, ins['normal'])
+                if op == 'invoke':
+                    fr.active_invoke = (ins['unwind'], fr.blk); self.goto(st, fr, ins['normal'])
+                else: fr.active_invoke = None
                 name = self.m.aliases.get(name, name)
                 self.fcount[name] = self.fcount.get(name, 0) + 1
                 h = self.ext.get(name)
@@ -759,13 +837,14 @@ class Exec:
                     if isinstance(r, Forks): self.apply_forks(st, work, r, ins['dst'])
                     elif ins['dst'] is not None: fr.loc[ins['dst']] = r
                 elif name in self.m.funcs:
-                    self.call(st, name, args, ins['dst'])
+                    self.call(st, name, args, ins['dst']); continue
                 elif name in LIBM:
                     r = self.libm(st, name, args)
                     if isinstance(r, Forks): self.apply_forks(st, work, r, ins['dst'])
                     elif ins['dst'] is not None: fr.loc[ins['dst']] = r
                 else:
                     raise Unsupported('external function without model: ' + name)
+                fr.active_invoke = None        # the external / intrinsic returned normally
             elif op == 'extractvalue':
                 v = self.val(st, fr, ins['ty'], ins['a'])
                 for i in ins['idx']: v = v[i]
@@ -800,8 +879,23 @@ class Exec:
                 if old == c: self.store(st, a, ins['ty'], nv)
                 fr.loc[ins['dst']] = [old, int(old == c)]
             elif op == 'fence': pass
-            elif op == 'landingpad' or op == 'resume':
-                raise Unsupported('exception path (%s) in %s' % (op, fr.fn.name))
+            elif op == 'landingpad':
+                exc = st.extra.get('exc')
+                if exc is None: raise Unsupported('landingpad reached without an exception in flight in ' + fr.fn.name)
+                sel = 0
+                for kind, tname in re.findall(r'\b(catch|filter)\s+(?:i8\*|ptr)\s+(null|[^@]*@(?:"[^"]*"|[-\w.$]+))', ins['raw']):
+                    if kind != 'catch': continue
+                    cn = None if tname.strip() == 'null' else tname[tname.index('@') + 1:].strip('"')
+                    if self.exc_matches(exc[1], cn):
+                        sel = 0 if cn is None else self.typeid_for(cn)
+                        if cn is None: sel = self.typeid_for('<catch-all>')
+                        break
+                fr.loc[ins['dst']] = [exc[0], sel]
+            elif op == 'resume':
+                exc = st.extra.get('exc')
+                for a in fr.allocas: st.allocs.pop(a, None)
+                st.frames.pop(); st.aver += 1
+                raise CxxThrow(exc[0], exc[1])
             else:
                 raise Unsupported('instruction ' + op)
         return st
@@ -964,6 +1058,8 @@ class Exec:
             v = args[0]; bits = ins['ty'].bits
             if not isinstance(v, int): raise Unsupported('symbolic bswap')
             return int.from_bytes(v.to_bytes(bits // 8, 'little'), 'big')
+        if name.startswith('llvm.eh.typeid.for'):
+            n = self.tinfo_name(args[0]); return self.typeid_for(n) if n else 0
         if name.startswith('llvm.stacksave'): return 0
         if name.startswith('llvm.stackrestore'): return None
         if name.startswith('llvm.expect'): return args[0]
@@ -1035,6 +1131,13 @@ def ext_memcmp(ex, st, fr, args, ins):
     ex.check_access(st, a, n, 'memcmp'); ex.check_access(st, b, n, 'memcmp')
     x = ex.read_bytes(st, a, n); y = ex.read_bytes(st, b, n)
     return ((x > y) - (x < y)) & MASK(32)
+def ext_strcmp(ex, st, fr, args, ins):
+    a, b = args; i = 0
+    while True:
+        x = ex.read_bytes(st, a + i, 1)[0]; y = ex.read_bytes(st, b + i, 1)[0]
+        if x != y: return (1 if x > y else -1) & MASK(32)
+        if x == 0: return 0
+        i += 1
 def ext_strlen(ex, st, fr, args, ins):
     a = args[0]; n = 0
     while ex.read_bytes(st, a + n, 1) != b'\0': n += 1
@@ -1056,15 +1159,26 @@ def ext_memset(ex, st, fr, args, ins):
     for a in ex._overlap(st, dst, n): st.sym.pop(a)
     ex.write_bytes(st, dst, bytes([v & 255]) * n); return dst
 def ext_atomic_guard(ex, st, fr, args, ins): return 1
+def ext_cxa_alloc(ex, st, fr, args, ins): return ex.malloc(st, args[0] + 128) + 128
+def ext_cxa_throw(ex, st, fr, args, ins):
+    n = ex.tinfo_name(args[1])
+    if n is None: raise Unsupported('throw of an object with unknown type_info')
+    raise CxxThrow(args[0], n)
+def ext_cxa_begin_catch(ex, st, fr, args, ins): return args[0]
+def ext_cxa_rethrow(ex, st, fr, args, ins):
+    exc = st.extra.get('exc')
+    if exc is None: raise PathEnd('rethrow without exception')
+    raise CxxThrow(exc[0], exc[1])
 def ext_rd_getval(ex, st, fr, args, ins): return 5489   # std::random_device: a fixed seed; random draws are modelled at the distribution level
 DEFAULT_EXT = {'_Znwm': ext_new, '_Znam': ext_new, '_ZdlPv': ext_free, '_ZdaPv': ext_free, '_ZdlPvm': ext_free, '_ZdaPvm': ext_free, 'free': ext_free, 'malloc': ext_new,
-               'modff': ext_modff, 'memcmp': ext_memcmp, 'bcmp': ext_memcmp, 'strlen': ext_strlen, 'memchr': ext_memchr,
+               'modff': ext_modff, 'memcmp': ext_memcmp, 'bcmp': ext_memcmp, 'strlen': ext_strlen, 'strcmp': ext_strcmp, 'memchr': ext_memchr,
                'memcpy': ext_memmove, 'memmove': ext_memmove, 'memset': ext_memset,
                '_ZNSt13random_device7_M_initERKNSt7__cxx1112basic_stringIcSt11char_traitsIcESaIcEEE': ext_noop, '_ZNSt13random_device7_M_finiEv': ext_noop,
                '_ZNSt13random_device9_M_getvalEv': ext_rd_getval,
                '__cxa_guard_acquire': ext_atomic_guard, '__cxa_guard_release': ext_noop, '__cxa_atexit': ext_zero,
                '__assert_fail': ext_pathend('assertion failed'), 'abort': ext_pathend('abort'), '_ZSt9terminatev': ext_pathend('terminate'),
-               '__cxa_allocate_exception': ext_pathend('throw'), '__cxa_throw': ext_pathend('throw'),
+               '__cxa_allocate_exception': ext_cxa_alloc, '__cxa_throw': ext_cxa_throw, '__cxa_begin_catch': ext_cxa_begin_catch, '__cxa_end_catch': ext_noop, '__cxa_free_exception': ext_noop,
+               '__cxa_rethrow': ext_cxa_rethrow,
                '_ZSt20__throw_length_errorPKc': ext_pathend('throw length_error'), '_ZSt17__throw_bad_allocv': ext_pathend('throw bad_alloc'),
                '_ZSt20__throw_out_of_rangePKc': ext_pathend('throw out_of_range'), '_ZSt24__throw_out_of_range_fmtPKcz': ext_pathend('throw out_of_range'),
                '_ZSt19__throw_logic_errorPKc': ext_pathend('throw logic_error'), '_ZSt28__throw_bad_array_new_lengthv': ext_pathend('throw bad_array_new_length'),
@@ -1300,3 +1414,40 @@ SP = '_ZNSt7__cxx1112basic_stringIcSt11char_traitsIcESaIcEE'
 DEFAULT_EXT.update({SP + '9_M_createERmm': ext_str_create, SP + '9_M_appendEPKcm': ext_str_append, SP + '9_M_assignERKS4_': ext_str_assign,
                     SP + '10_M_replaceEmmPKcm': ext_str_replace, SP + '9_M_mutateEmmPKcm': ext_str_mutate,
                     '_ZNKSt7__cxx1112basic_stringIcSt11char_traitsIcESaIcEE7compareEPKc': ext_str_compare, '_ZNKSt7__cxx1112basic_stringIcSt11char_traitsIcESaIcEE7compareERKS4_': ext_str_compare})
+
+# ---- more std::string members (explicit instantiations in libstdc++; reached when the TU is compiled with -fno-inline)
+def _str_init(ex, st, s, data):
+    ex.store(st, s, IntTy(64), s + 16); ex.store(st, s + 8, IntTy(64), 0); ex.write_bytes(st, s + 16, bytes(16)); _str_set(ex, st, s, data)
+def _cstr_at(ex, st, p):
+    n = 0
+    while ex.read_bytes(st, p + n, 1) != b'\0': n += 1
+    return ex.read_bytes(st, p, n)
+def _str_bytes(ex, st, s):
+    p, n, cap = _str_get(ex, st, s); return ex.read_bytes(st, p, n)
+def ext_str_cstr(ex, st, fr, a, ins): return ex.load(st, a[0], IntTy(64))
+def ext_str_size(ex, st, fr, a, ins): return ex.load(st, a[0] + 8, IntTy(64))
+def ext_str_empty(ex, st, fr, a, ins): return int(ex.load(st, a[0] + 8, IntTy(64)) == 0)
+def ext_str_ctor_default(ex, st, fr, a, ins): _str_init(ex, st, a[0], b''); return None
+def ext_str_ctor_cstr(ex, st, fr, a, ins): _str_init(ex, st, a[0], _cstr_at(ex, st, a[1])); return None
+def ext_str_ctor_copy(ex, st, fr, a, ins): _str_init(ex, st, a[0], _str_bytes(ex, st, a[1])); return None
+def ext_str_assign_op(ex, st, fr, a, ins): _str_set(ex, st, a[0], _str_bytes(ex, st, a[1])); return a[0]
+def ext_str_assign_cstr(ex, st, fr, a, ins): _str_set(ex, st, a[0], _cstr_at(ex, st, a[1])); return a[0]
+def ext_str_append_str(ex, st, fr, a, ins): _str_set(ex, st, a[0], _str_bytes(ex, st, a[0]) + _str_bytes(ex, st, a[1])); return a[0]
+def ext_str_append_cstr(ex, st, fr, a, ins): _str_set(ex, st, a[0], _str_bytes(ex, st, a[0]) + _cstr_at(ex, st, a[1])); return a[0]
+def ext_str_index(ex, st, fr, a, ins): return ex.load(st, a[0], IntTy(64)) + a[1]
+def ext_str_eq_cstr(ex, st, fr, a, ins): return int(_str_bytes(ex, st, a[0]) == _cstr_at(ex, st, a[1]))
+def ext_str_eq_str(ex, st, fr, a, ins): return int(_str_bytes(ex, st, a[0]) == _str_bytes(ex, st, a[1]))
+def ext_str_lt(ex, st, fr, a, ins): return int(_str_bytes(ex, st, a[0]) < _str_bytes(ex, st, a[1]))
+def ext_str_clear(ex, st, fr, a, ins): _str_set(ex, st, a[0], b''); return None
+SC = '_ZNKSt7__cxx1112basic_stringIcSt11char_traitsIcESaIcEE'
+DEFAULT_EXT.update({SC + '5c_strEv': ext_str_cstr, SC + '4dataEv': ext_str_cstr, SC + '4sizeEv': ext_str_size, SC + '6lengthEv': ext_str_size, SC + '5emptyEv': ext_str_empty,
+                    SP + 'C1Ev': ext_str_ctor_default, SP + 'C2Ev': ext_str_ctor_default, SP + 'C1EPKcRKS3_': ext_str_ctor_cstr, SP + 'C2EPKcRKS3_': ext_str_ctor_cstr, SP + 'C1ERKS4_': ext_str_ctor_copy, SP + 'C2ERKS4_': ext_str_ctor_copy,
+                    SP + 'C1EOS4_': ext_str_ctor_copy, SP + 'C2EOS4_': ext_str_ctor_copy, SP + 'D1Ev': ext_noop, SP + 'D2Ev': ext_noop, SP + 'aSERKS4_': ext_str_assign_op, SP + 'aSEOS4_': ext_str_assign_op, SP + 'aSEPKc': ext_str_assign_cstr,
+                    SP + 'pLERKS4_': ext_str_append_str, SP + 'pLEPKc': ext_str_append_cstr, SP + '6appendERKS4_': ext_str_append_str, SP + '6appendEPKc': ext_str_append_cstr, SP + 'ixEm': ext_str_index, SC + 'ixEm': ext_str_index,
+                    SP + '5clearEv': ext_str_clear,
+                    '_ZSteqIcSt11char_traitsIcESaIcEEbRKNSt7__cxx1112basic_stringIT_T0_T1_EEPKS5_': ext_str_eq_cstr, '_ZSteqIcEN9__gnu_cxx11__enable_ifIXsr9__is_charIT_EE7__valueEbE6__typeERKNSt7__cxx1112basic_stringIS2_St11char_traitsIS2_ESaIS2_EEESC_': ext_str_eq_str,
+                    '_ZStltIcSt11char_traitsIcESaIcEEbRKNSt7__cxx1112basic_stringIT_T0_T1_EES8_': ext_str_lt,
+                    '_ZNSaIcEC1Ev': ext_noop, '_ZNSaIcED1Ev': ext_noop, '_ZNSaIcEC2Ev': ext_noop, '_ZNSaIcED2Ev': ext_noop})
+
+for _n in ('_ZNSt8bad_castD2Ev', '_ZNSt8bad_castD1Ev', '_ZNSt8bad_castD0Ev', '_ZNSt9exceptionD2Ev', '_ZNSt9exceptionD1Ev', '_ZNSt9exceptionD0Ev', '_ZNSt13runtime_errorD2Ev', '_ZNSt11logic_errorD2Ev'):
+    DEFAULT_EXT[_n] = ext_noop
